@@ -31,6 +31,10 @@ import (
 //	            overwhelming probability (3 keys: all 60 traversals start in the same slot
 //	            class with probability (3/4)^60 < 1e-7).
 //
+//	shared-names-map  (c07_names.go) one names map object of the caller handed to ImportNames of
+//	            several Files, second and third calls with extra entries on some of them, the
+//	            caller changing its map in between; twins, other orders of building the Files.
+//
 //	mixed-keys  (c07_mixed.go) one Dict with keys of DIFFERENT KINDS - integer literals whose
 //	            numeric and textual orders disagree next to expressions, typed literals, floats,
 //	            strings, identifiers, Quals, composite literals - rendered 4..8 times per build,
@@ -574,6 +578,14 @@ func c07Cases(sub int64, t string) []*Case {
 		c.Meta["xkey"] = fmt.Sprintf("m%d", i)
 		out = append(out, c)
 	}
+	// stream shared-names-map (c07_names.go), again with a PRNG of its own
+	rn := rand.New(rand.NewSource(sub ^ 0x5a11ed))
+	nn := tier(t, 250, 10000)
+	for i := 0; i < nn; i++ {
+		c := c07NamesCase(rn)
+		c.Meta["xkey"] = fmt.Sprintf("n%d", i)
+		out = append(out, c)
+	}
 	return out
 }
 
@@ -753,6 +765,13 @@ func (c07) Oracle(c *Case, got []hist.Obs) string {
 		// the recipes are valid files: a failed render would make the comparison vacuous
 		if o, ok := lastWrite(got); !ok || o.Kind != "write" {
 			return fmt.Sprintf("the recipe did not render: %v", got)
+		}
+	}
+	if _, ok := c.Meta["names"]; ok {
+		// stream shared-names-map (c07_names.go): the caller's maps are intact, twins agree,
+		// other orders of building the Files give every File the same bytes
+		if m := c07NamesCheck(c, got); m != "" {
+			return m
 		}
 	}
 	if c.Meta["mixed"] == true {
